@@ -226,7 +226,7 @@ async fn reader_worker(
                                 .iter()
                                 .map(|(a, b)| json!([sat(*a), sat(*b as i64)]))
                                 .collect();
-                            ev!(ctx.tracer, "ret", "ep": &*ctx.name, "op": "read", "res": "ok", "n": k, "pos": sat(pos as i64), "runs": runs);
+                            ev!(ctx.tracer, "ret", "ep": &*ctx.name, "op": "read", "res": "ok", "n": k, "pos": sat(pos as i64), "want": want, "runs": runs);
                             pos += k as u64;
                             got += k as u64;
                         }
